@@ -81,6 +81,31 @@ Section ListObjects.
   Definition run_prefix (k : nat) (cands : list cand) (check : A -> bool) (limit : nat) (arrival : list nat) : list A :=
     firstn k (evaluate cands check limit arrival).
 
+  (* 6. ListObjectsQuery.Execute (unary): condition-evaluation errors (of the reverse expansion or of
+        a Check) are collected while the sends go on; the pool cancels the remaining work, so only
+        a prefix of the sends happens (err_after = Some k: the error struck after k sends).  Then
+            if len(objects) < int(maxResults) && errs != nil { return nil, errs }
+        AS CODED: with maxResults = 0 ("all results can be returned") the test is never true, the
+        error is dropped and the partial list is returned as if it were complete (finding
+        limit0_error_swallowed).  ExecuteStreamed reports every error (after the prefix was sent). *)
+  Inductive response := Objects (l : list A) | Failed.
+
+  Definition execute (cands : list cand) (check : A -> bool) (limit : nat) (arrival : list nat)
+             (err_after : option nat) : response :=
+    match err_after with
+    | None => Objects (evaluate cands check limit arrival)
+    | Some k =>
+        let sent := run_prefix k cands check limit arrival in
+        if Nat.ltb (length sent) limit then Failed else Objects sent
+    end.
+
+  Definition execute_streamed (cands : list cand) (check : A -> bool) (arrival : list nat)
+             (err_after : option nat) : list A * bool (* sent, failed *) :=
+    match err_after with
+    | None => (evaluate cands check 0 arrival, false)
+    | Some k => (run_prefix k cands check 0 arrival, true)
+    end.
+
   (* ---- the reverse-expansion contract, as boolean predicates (checked on the real stream) ---- *)
   (* every candidate sent with NoFurtherEval is permitted *)
   Definition nofurther_sound (permitted : A -> bool) (cands : list cand) : bool :=
@@ -114,3 +139,4 @@ Definition nodupb_nat := nodupb nat Nat.eqb.
 Definition same_set_nat := same_set nat Nat.eqb.
 Definition attempts_nat := attempts nat Nat.eqb.
 Definition distinct_objs_nat := distinct_objs nat Nat.eqb.
+Definition execute_nat := execute nat Nat.eqb.
